@@ -349,15 +349,33 @@ pub fn run(r: &mut R) {
 }"""
     cases.append(Case("c%d" % len(cases), mod, meta={"derive": "AsRef+AsMut unsized field, listed foreign type", "src": "#[derive(AsRef, AsMut)] struct U(#[as_ref(str)] #[as_mut(str)] Tag);"}))
     # `ref` alone picks the by-reference impl only ("You can pick any combination of owned, ref and ref_mut"): it must work for a field
-    # that is not iterable by value.  KNOWN FINDING (c14-ref-only-selection-also-generates-owned): an owned impl is generated as well.
-    for k, decl in enumerate(("#[into_iterator(ref)] pub struct S(pub OnlyRef);", "pub struct S(#[into_iterator(ref)] pub OnlyRef, pub u8);", "#[into_iterator(ref)] pub struct S { pub a: OnlyRef }")):
+    # that is not iterable by value.  (Was the known finding c14-ref-only-selection-also-generates-owned until /repo 971fb2e.)
+    for k, decl in enumerate(("#[into_iterator(ref)] pub struct S(pub OnlyRef);", "pub struct S(#[into_iterator(ref)] pub OnlyRef, pub u8);", "#[into_iterator(ref)] pub struct S { pub a: OnlyRef }",
+                              # ... wherever the selection is written, and whatever precedes it
+                              "pub struct S(#[into_iterator(ignore)] pub u8, #[into_iterator(ref)] pub OnlyRef);", "pub struct S(pub u8, #[into_iterator(ref)] pub OnlyRef, #[into_iterator(ignore)] pub u8);")):
         mod = """use super::*;
 #[derive(derive_more::IntoIterator)] %s
 pub fn run(r: &mut R) {
     let s = %s;
     r.eq("shared iteration of a field that is only iterable by reference", (&s).into_iter().copied().collect::<Vec<u32>>(), vec![1, 2]);
-}""" % (decl, "S(OnlyRef(vec![1, 2]))" if k == 0 else ("S(OnlyRef(vec![1, 2]), 0)" if k == 1 else "S { a: OnlyRef(vec![1, 2]) }"))
-        cases.append(Case("c%d" % len(cases), mod, meta={"derive": "IntoIterator ref only, field not iterable by value", "src": "#[derive(IntoIterator)] " + decl, "known": "c14-ref-only-selection-also-generates-owned"}))
+}""" % (decl, ["S(OnlyRef(vec![1, 2]))", "S(OnlyRef(vec![1, 2]), 0)", "S { a: OnlyRef(vec![1, 2]) }", "S(0, OnlyRef(vec![1, 2]))", "S(0, OnlyRef(vec![1, 2]), 0)"][k])
+        cases.append(Case("c%d" % len(cases), mod, meta={"derive": "IntoIterator ref only, field not iterable by value", "src": "#[derive(IntoIterator)] " + decl}))
+    # a marker on the selected field AND `ignore` on some of the others, in every order (the diagnostic itself suggests: "Try putting
+    # #[deref] or #[deref(ignore)] on the fields"): the one marked field is the selected one wherever the ignored ones stand
+    for n in (3, 4) if thorough else (3,):
+        for sel in range(n):
+            for ign in range(n):
+                if ign == sel:
+                    continue
+                for d, attr in (("Deref", "deref"), ("Index", "index"), ("IntoIterator", "into_iterator")):
+                    ty, val = {"Deref": ("Inner", lambda i: "inner(%d)" % (10 * (i + 1))), "Index": ("Vec<u32>", lambda i: "vec![%d, %d]" % (i, i + 1)),
+                               "IntoIterator": ("Vec<u32>", lambda i: "vec![%d, %d]" % (i, i + 1))}[d]
+                    st = St(n, sel, False, False, ty, val)
+                    fa = {sel: "#[%s]" % attr, ign: "#[%s(ignore)]" % attr}
+                    body = {"Deref": ['r.eq("the marked field is selected", adr(&*s), adr(&%s));' % st.fld()],
+                            "Index": ['r.eq("the marked field is selected", adr(&s[1]), adr(&%s[1]));' % st.fld()],
+                            "IntoIterator": ['r.eq("the marked field is selected", s.clone().into_iter().collect::<Vec<u32>>(), %s.clone());' % st.fld()]}[d]
+                    add("%s marker + ignore elsewhere" % d, st, [], fa, [d], ["let s: SS = %s;" % st.ctor()] + body)
     # raw identifier field names
     for d, attr in (("Deref", "deref"), ("AsRef", "as_ref")):
         st = St(2, 1, True, False, "Inner", lambda i: "inner(%d)" % (10 * (i + 1)), raw=True)
